@@ -1,6 +1,8 @@
 import Model.Base.Proto
 import Model.Tab.Pipeline
 import Model.Spec.Cells
+import Model.Proc.ProjProto
+import Model.Tab.RawPass
 
 /-
 Shared by the C14 and C15 drivers: parsing of the projected measurement stream (case line of
@@ -210,6 +212,67 @@ def specLine (id : String) (c : Case) (bin : String) : String :=
 
 
 def hexStr (s : String) : String := (Bytes.ofString s).toHex
+
+/-! ### second pass: keys and key order from the RAW results, by the C08/C09 model -/
+
+section Raw
+open Proc.Projection Proc.ProjProto Tab.RawPass
+
+def encTuple (t : Key) : String := "." ++ String.join (t.map fun v => v.toHex ++ ":")
+def encDict (d : List Key) : String := if d.isEmpty then "-" else ",".intercalate (d.map encTuple)
+def encNats (l : List Nat) : String := if l.isEmpty then "-" else ",".intercalate (l.map toString)
+
+def dedupNats (l : List Nat) : List Nat := l.foldl (fun acc x => if acc.contains x then acc else acc ++ [x]) []
+
+structure RawOut where
+  c : Case
+  line : String
+
+def rawPass (l : Line) (c : Case) : RawOut :=
+  let specStr := l.getD "specs" ""
+  let specs := (specStr.splitOn ";").map fun e => if e == "" then [] else (e.splitOn "+").map decSpec
+  let rawStr := l.getD "raw" "-"
+  let raws := if rawStr == "-" then [] else (rawStr.splitOn ";").map decRes
+  let pn := pnOf (decPn (l.getD "pn" "-"))
+  let (w, keyed) := raws.foldl (rawStep weakHash 4) (rawWorld specs, [])
+  let pT := w.projs.getD 0 default
+  let pR := w.projs.getD 1 default
+  let pC := w.projs.getD 2 default
+  let pZ := w.projs.getD 4 default
+  let dT := dedupNats (keyed.flatMap (·.1))
+  let dR := dedupNats (keyed.map (·.2.1))
+  let dC := dedupNats (keyed.map (·.2.2.1))
+  let dZ := dedupNats (keyed.map (·.2.2.2))
+  let ranks (p : Proj) (d : List Nat) : List Nat := d.map (rankOf pn p d)
+  let values := c.res.map fun r => r.vals.map (·.2)
+  let resStr := if keyed.isEmpty then "-" else
+    ",".intercalate ((keyed.zip values).map fun (k, vs) =>
+      let head := s!"{dR.idxOf k.2.1};{dC.idxOf k.2.2.1};{dZ.idxOf k.2.2.2}"
+      (k.1.zip vs).foldl (fun acc tv => acc ++ s!";{dT.idxOf tv.1}~{F64.toHex tv.2}") head)
+  let names (p : Proj) : List Bytes := p.flat.map (·.name)
+  let T := dT.map (tupleOf pT)
+  let R := dR.map (tupleOf pR)
+  let C := dC.map (tupleOf pC)
+  let Z := dZ.map (tupleOf pZ)
+  let tord := ranks pT dT
+  let rord := ranks pR dR
+  let cord := ranks pC dC
+  let res : List (Res Key Key F64.Bits) := (keyed.zip values).map fun (k, vs) =>
+    { row := tupleOf pR k.2.1, col := tupleOf pC k.2.2.1, residue := tupleOf pZ k.2.2.2,
+      vals := (k.1.zip vs).map fun tv => (tupleOf pT tv.1, tv.2) }
+  let line := s!"TF={showHexList (names pT)} RF={showHexList (names pR)} CF={showHexList (names pC)} ZF={showHexList (names pZ)} T={encDict T} R={encDict R} C={encDict C} Z={encDict Z} Tord={encNats tord} Rord={encNats rord} Cord={encNats cord} res={resStr}"
+  { c := { c with tf := names pT, rf := names pR, cf := names pC, zf := names pZ, T := T, R := R, C := C, Z := Z,
+                  tord := tord, rord := rord, cord := cord, res := res },
+    line := line }
+
+/-- the obs lines of the raw pass -/
+def rawLines (id : String) (l : Line) (c : Case) : List String :=
+  if l.getD "rawok" "0" != "1" then [] else
+  let r := rawPass l c
+  let same := decide (toTables r.c.cfg (build r.c.res) = toTables c.cfg (build c.res))
+  [s!"obs {id} raw {r.line}", s!"obs {id} rawtab same={if same then 1 else 0}"]
+
+end Raw
 
 def defaultsLine (id : String) : String :=
   let f : Flags := {}
